@@ -224,7 +224,10 @@ def tlc(module, cfg, workers=4, timeout=600, env_extra=None, simulate=None, dept
     if p.returncode not in (0, 12, 13) and r.violation is None:
         # 12 = safety violation, 13 = liveness violation; anything else is tool trouble
         log(out[-3000:])
-        raise ToolError(f"TLC failed on {module}/{cfg} (exit {p.returncode}): {r.error}")
+        if env_extra and "TRACE" in env_extra and os.path.exists(env_extra["TRACE"]):
+            shutil.copy(env_extra["TRACE"], os.path.join(CACHE, "last_failed_trace.ndjson"))
+        detail = " | ".join(l for l in out.splitlines() if "ttempted" in l or "rror" in l)[:600]
+        raise ToolError(f"TLC failed on {module}/{cfg} (exit {p.returncode}): {detail}")
     if r.error and r.violation is None and p.returncode != 0:
         log(out[-3000:])
         raise ToolError(f"TLC error on {module}/{cfg}: {r.error}")
